@@ -171,6 +171,8 @@ def run_c07_abort(sc):
             obs_after[int(str(r[4])[8:])] = r
     errors = []  # (op index, seq, cfg before failing transition, exc info)
     cur_op = None
+    recv_op = None   # async: send() returns before the run loop processes the event; attribute by the event's tag
+    tag_op = {op.get("tag"): i for i, op in enumerate(sc["ops"]) if op.get("op") == "send" and op.get("tag") is not None}
     last_boundary_cfg = None
     seg_dirty = False
     for r in res.trace:
@@ -182,6 +184,8 @@ def run_c07_abort(sc):
         elif k == "op-ret":
             cur_op = None
         elif k in ("recv", "trans") and r[4] == root:
+            if k == "recv":
+                recv_op = tag_op.get(r[6]) if r[6] is not None else None
             last_boundary_cfg = set(cfg) if k == "recv" else set(r[10])
             if k == "trans":
                 cfg = set(r[10])
@@ -191,11 +195,21 @@ def run_c07_abort(sc):
                 last_boundary_cfg = set(cfg)
                 seg_dirty = True
             (cfg.add if r[5].startswith("en.") else cfg.discard)(r[5][3:])
-        elif k == "log" and "rolling back" in (r[7] or ""):
-            errors.append({"op": cur_op, "seq": r[SEQ], "before": set(last_boundary_cfg or ()), "exc": r[6], "t": r[T]})
+        elif k == "log" and ("rolling back" in (r[7] or "") or "All resolution attempts failed" in (r[7] or "")):
+            errors.append({"op": cur_op if cur_op is not None else (recv_op if sc["engine"] == "async" else None),
+                           "seq": r[SEQ], "before": set(last_boundary_cfg or ()), "exc": r[6], "t": r[T]})
             cfg = set(last_boundary_cfg or ())
             seg_dirty = False
     fin = w.final_obs("final")
+    if errors:
+        # whatever aborted (caller's event, timer expiry, service result): every later observation is a legal configuration
+        for o_ in w.obs:
+            if o_[5] == root and o_[SEQ] > errors[0]["seq"] and isinstance(o_[6], dict) and o_[6].get("status") == "running":
+                probs = m.legal_problems(o_[6]["cfg"])
+                if probs:
+                    vios.append(Violation("C07", "illegal-configuration-after-abort", sig0,
+                                          f"after an aborted transition the configuration {list(o_[6]['cfg'])} is not legal: {probs[:2]}"))
+                    break
     for e in errors:
         if e["op"] is None or sc["ops"][e["op"]].get("op") != "send":
             continue  # aborted inside a timer thread / task: no caller to report to, judged by the final observation only
